@@ -23,7 +23,7 @@ ASSUMPTIONS = [
     "declaring on a node overrides the binding of that prefix throughout its subtree",
     "fix_nsmap / set_nsmap are outside the quantifier's operation set",
 ]
-REQUIRED = ["steps", "attach_steps", "declare_steps", "redeclare_steps", "remove_steps", "redeclare_on_node_sharing_parent_map",
+REQUIRED = ["histories_with_prefixed_elements", "steps", "attach_steps", "declare_steps", "redeclare_steps", "remove_steps", "redeclare_on_node_sharing_parent_map",
             "frame_checks_outside_subtree", "states_expanded", "attachments_made_by_reference_expansion"]
 EXHAUSTIVE = {"quick": False, "thorough": False}
 
@@ -284,6 +284,11 @@ def random_history(ctx, hist_no):
     rng = ctx.rng
     n = rng.randint(10, 30)
     prefixes, uris = ("a", "b", "c", "d", "e\u0301", "\u212b", "ab", "abc", "xs", "xsi", "xml", "xmlns", "eml", ""), ("u1", "u2", "u3", "", "u1/", "U1")   # (prefixes that contain each other too)
+    if hist_no % 2:
+        # namespace names as vocabularies publish them: an empty fragment or query at the end, upper case, a default port, an escape, a blank
+        uris = uris + ("http://www.w3.org/1999/02/22-rdf-syntax-ns#", "http://www.w3.org/2001/XMLSchema#", "http://www.w3.org/2001/XMLSchema",
+                       "https://example.org/ns?", "https://example.org/ns", "HTTP://Example.ORG/Ns", "http://example.org:80/", "http://example.org/%7Ea",
+                       "http://example.org/a b", "http://example.org/a\tb", "https://eml.ecoinformatics.org/eml-2.2.0", "http://example.org/a/../b", "http://example.org")
     # the forest starts with two documents imported from the same text (equal declarations, maps shared inside each document as
     # the importer does) plus separate nodes: "unrelated trees are unaffected" is checked across all of them
     doc = '<r xmlns:a="u1" xmlns:b="u2"><x><y/><w/></x><z xmlns:c="u3"/></r>'
@@ -299,12 +304,20 @@ def random_history(ctx, hist_no):
     nodes += [Node(rng.choice(["n", "n", "additionalMetadata", "metadata", "metadata", "dataset", "para", "eml"]),
                    id=("shared-id" if rng.random() < 0.25 else None)) for _ in range(max(0, n - len(nodes)))]
     n = len(nodes)
+    node_prefixes = None
+    if hist_no % 3 == 1:
+        # elements written with a prefix (stmml:unit, the eml:eml root): which prefix an element is written with says nothing about the
+        # bindings it shows
+        node_prefixes = [rng.choice(prefixes) if rng.random() < 0.5 else None for _ in nodes]
+        for x, px in zip(nodes, node_prefixes):
+            x.prefix = px
+        ctx.count("histories_with_prefixed_elements")
     label = {id(x): i for i, x in enumerate(nodes)}
     f = forest_of(real_state(nodes, label), n)
     history = []
 
     def wit():
-        return {"n": n, "init": "two-imports", "history": [list(o) for o in history[:-1]], "op": list(history[-1])}
+        return {"n": n, "init": "two-imports", "node_prefixes": node_prefixes, "history": [list(o) for o in history[:-1]], "op": list(history[-1])}
 
     for _ in range(200):
         k = rng.random()
@@ -478,6 +491,8 @@ def replay(ctx, witness):
             x = stack.pop()
             nodes.append(x)
             stack.extend(reversed(x.children))
+    for x, px in zip(nodes, witness.get("node_prefixes") or []):
+        x.prefix = px
     label = {id(x): i for i, x in enumerate(nodes)}
     f = forest_of(real_state(nodes, label), len(nodes))
     for op in witness["history"]:
